@@ -15,6 +15,15 @@ import (
 
 var ErrInjected = errors.New("sim: injected I/O fault")
 
+// ErrTemporary is an injected fault that calls itself transient, as a read deadline on a connection does.
+var ErrTemporary error = tempErr{}
+
+type tempErr struct{}
+
+func (tempErr) Error() string   { return "sim: injected i/o timeout" }
+func (tempErr) Temporary() bool { return true }
+func (tempErr) Timeout() bool   { return true }
+
 // ---------- Tape: replaces crypto/rand.Reader ----------
 
 type TapeRead struct{ Off, Len int }
@@ -159,6 +168,7 @@ type SrcFault struct {
 	At   int    `json:"at"`
 	K    int    `json:"k"`    // bytes delivered together with the error
 	Mode string `json:"mode"` // "sticky", "once-data", "once-eof"
+	Temp bool   `json:"temp,omitempty"` // the error says Temporary() == true
 }
 
 type SimSource struct {
@@ -250,6 +260,9 @@ func (s *SimSource) Read(p []byte) (int, error) {
 			s.failed = true
 			s.Fired++
 			s.Log.Add("src.Read at %d -> (%d, injected %s)", f.At, k, f.Mode)
+			if f.Temp {
+				return k, ErrTemporary
+			}
 			return k, ErrInjected
 		}
 	}
